@@ -126,6 +126,8 @@ def stepModel (st : St) (cmd : String) (impl : String) : St × Verdict :=
   -- the transaction the call is made on (a closed dummy when none is open)
   let t : Tx := st.tx.getD { id := 0, writable := false, closed := true }
   let setTx (t' : Tx) : St := { st with tx := if st.tx.isSome then some t' else none }
+  -- key-only mode: a read leaves an empty file behind for every fetched record whose file is missing
+  let rd (idxs : List Idx) : St := { st with db := afterRead s idxs }
   match op with
   | "open" =>
     let opt : Opts := { mode := N 1, rw := N 2, startRw := N 3, sync := N 4 == 1, seg := N 5 }
@@ -162,7 +164,7 @@ def stepModel (st : St) (cmd : String) (impl : String) : St × Verdict :=
     let (s', o) := merge s (N 1) txids
     let m := (match o with | .ok _ => "ok" | .err => "err" | .panic => "panic") ++ " txids=" ++ idsStr
     ({ st with db := s' }, v m s!"merge/{(impl.splitOn " ").headD ""}")
-  | "obs" => (st, v ("ok " ++ obs s (N 1)) "obs")
+  | "obs" => (rd (obsBuckets.flatMap fun b => getAllFetched s b (N 1)), v ("ok " ++ obs s (N 1)) "obs")
   | "capture" => (st, v "ok" "capture")
   | "concmerge" => (st, v "ok" "concmerge")
   | "image" =>
@@ -202,23 +204,24 @@ def stepModel (st : St) (cmd : String) (impl : String) : St × Verdict :=
     (setTx t', v (unitOut o) s!"del/{c}")
   | "get" =>
     let o := if t.closed then Outcome.err else get s (B 1) (B 2) (N 3)
-    (st, v (showOutcome showRec o) s!"get/{c}")
+    (rd (if t.closed then [] else getFetched s (B 1) (B 2) (N 3)), v (showOutcome showRec o) s!"get/{c}")
   | "getall" =>
     let o := if t.closed then Outcome.err else getAll s (B 1) (N 2)
-    (st, v (showOutcome showRecs o) s!"getall/{c}")
+    (rd (if t.closed then [] else getAllFetched s (B 1) (N 2)), v (showOutcome showRecs o) s!"getall/{c}")
   | "range" =>
     let o := if t.closed then Outcome.err else rangeScan s (B 1) (B 2) (B 3) (N 4)
-    (st, v (showOutcome showRecs o) s!"range/{c}")
+    (rd (if t.closed then [] else rangeFetched s (B 1) (B 2) (B 3) (N 4)), v (showOutcome showRecs o) s!"range/{c}")
   | "prefix" =>
     let o := if t.closed then Outcome.err else prefixScan s (B 1) (B 2) (I 3) (I 4) (N 5)
-    (st, v (showOutcome showRecs o) s!"prefix/{c}")
+    (rd (if t.closed then [] else prefixFetched s (B 1) (B 2) (I 3) (I 4) (N 5)), v (showOutcome showRecs o) s!"prefix/{c}")
   | "psearch" =>
     let pre := B 2
     let rx := N 3
     let o := if t.closed then Outcome.err
       else if rx ≥ 4 then Outcome.err
       else prefixScan s (B 1) pre (I 4) (I 5) (N 6) (fun k => rxMatch rx (k.drop pre.length))
-    (st, v (showOutcome showRecs o) s!"psearch/{c}/{rx}")
+    (rd (if t.closed || rx ≥ 4 then [] else prefixFetched s (B 1) pre (I 4) (I 5) (N 6) (fun k => rxMatch rx (k.drop pre.length))),
+      v (showOutcome showRecs o) s!"psearch/{c}/{rx}")
   -- ---------------- lists
   | "rpush" => let (t', o) := txRPush t (B 1) (B 2) (parseList (a 3)) (N 4) false; (setTx t', v (unitOut o) s!"rpush/{c}")
   | "lpush" => let (t', o) := txRPush t (B 1) (B 2) (parseList (a 3)) (N 4) true; (setTx t', v (unitOut o) s!"lpush/{c}")
